@@ -478,7 +478,11 @@ def run(tier, seed, replay=None):
     rng = random.Random(seed * 1000003 + 16)
     tm = {}
     t0 = time.time()
-    b = C.build_and_audit(PID, GEN)
+    try:
+        b = C.build_and_audit(PID, GEN)
+    except Exception as ex:   # e.g. coqdep on a file another run removed: keep going, the oracle still runs
+        import traceback
+        b = {"ok": False, "broken": ["build:exception"], "log": traceback.format_exc(), "obligations": 0, "files": [], "axioms": []}
     tm["build_and_audit_s"] = round(time.time() - t0, 1)
     C.proof_coverage(out, b, "make theories/Props/C16.vo && coqc Props/C16.v (Print Assumptions)")
     for br in b["broken"]:
